@@ -8,8 +8,9 @@ Definition dec_act (x : sx) : option act :=
   | SL [SZ 0; SZ i] => Some (ARegister (Z.to_N i))
   | SL [SZ 1; SZ c] => Some (AUnregister (Z.to_nat c))
   | SL [SZ 2; SZ i; SZ v] => Some (AArrive (result (Z.to_N i) (Z.to_N v)))
-  | SL [SZ 2; SZ i; SZ v; SZ q] =>      (* q = 1: a get/set request, else a result/error response *)
-      Some (AArrive (if Z.eqb q 1 then request (Z.to_N i) (Z.to_N v) else result (Z.to_N i) (Z.to_N v)))
+  | SL [SZ 2; SZ i; SZ v; SZ q] =>      (* q = 1: get/set; q = 2: missing or non-standard type; else result/error *)
+      Some (AArrive (if Z.eqb q 1 then request (Z.to_N i) (Z.to_N v)
+                     else if Z.eqb q 2 then other (Z.to_N i) (Z.to_N v) else result (Z.to_N i) (Z.to_N v)))
   | SL [SZ 3; SZ k] => Some (ARouter (Z.to_nat k))
   | SL [SZ 4; SZ c] => Some (ARecv (Z.to_nat c))
   | SL [SZ 5; SZ c] => Some (ACancel (Z.to_nat c))
@@ -17,8 +18,10 @@ Definition dec_act (x : sx) : option act :=
   | _ => None
   end.
 
-(* an IQ as the harness reports it: its id, plus 100 for a request (get/set) *)
-Definition iq_sx (v : resp) : sx := SN (if rreq v then 100 + rid v else rid v)%N.
+(* an IQ as the harness reports it: its id, plus 100 for a request (get/set), plus 200 for a
+   missing or non-standard type *)
+Definition iq_sx (v : resp) : sx :=
+  SN (match rkind v with KResponse => rid v | KRequest => 100 + rid v | KOther => 200 + rid v end)%N.
 
 Definition chan_sx (ch : chst) : sx :=
   (* what the requester can see: ids of the values read, and for a channel that got
